@@ -119,8 +119,9 @@ def example_jobs(model, tier, config='le'):
     tu.add('void harness(void)\n{\n    use_udp = nondet_u8(); can_variant = (Avtp_CanVariant_t)nondet_uint(); vp_mc_i = nondet_size();\n'
            '    new_packet(nondet_int(), nondet_int());\n    VP_CANARY();\n}\n')
     repl = [g for v in LISTENER_GETTERS.values() for g in v] + ['Avtp_Can_GetPayload', 'recv', 'write', 'memcpy']
-    # (a bounded unwinding fallback for this loop was tried - 64-byte datagrams, 5 unwindings - and did not finish in 30 minutes:
-    # when the message loop is rewritten so that the loop contract no longer attaches, this obligation ends undecided)
+    # (bounded unwinding fallbacks for this loop were tried twice - 64-byte datagrams / 5 unwindings and 48-byte datagrams / 4
+    # unwindings - and did not finish in 30 and 40 minutes: when the message loop is rewritten so that the loop contract no longer
+    # attaches, this obligation ends undecided)
     jobs.append(Job('examples/acf-can-listener/new_packet', tu.text(), LIBSRC, enforce='new_packet', replace=repl,
                     loop_contracts={'new_packet': [{'template': NP_LOOP, 'symbols': NP_SYMS}]},
                     owners={'post': ['C18'], 'safety': ['C18'], 'assigns': ['C18'], 'loop': ['C18']}, clause_map=dict(tu.tags),
